@@ -39,6 +39,7 @@ type crashInput struct {
 	KillNth   int    `json:"kill_nth"`
 	ReopenCreateOrOpen bool `json:"reopen_create_or_open,omitempty"` // the fresh process opens the bucket with CreateOrOpen instead of ReOpenExisting
 	TryCreateNew       bool `json:"try_create_new,omitempty"`        // ... after a CreateNew, which must be refused and leave the bucket alone
+	ReopenRenamed      bool `json:"reopen_renamed,omitempty"`        // the fresh process opens the directory under another bucket name
 	KillLast  bool   `json:"kill_last,omitempty"` // false: count occurrences from the start; true: count only inside the last step
 }
 
@@ -351,6 +352,9 @@ func execCrash(in crashInput, scratch string) (Case, error) {
 			return c, nil
 		}
 	}
+	if in.ReopenRenamed {
+		name += "_again"
+	}
 	h, err := rosmar.OpenBucket("rosmar://"+filepath.Join(dir, "b"), name, mode)
 	if err != nil {
 		c.Notes = append(c.Notes, "reopen failed: "+err.Error())
@@ -437,12 +441,16 @@ func genCrash(r *rand.Rand) crashInput {
 			if st.Kind == "kv" && st.Op != nil && st.Op.Cb != nil && st.Op.Cb.NewExp != nil && *st.Op.Cb.NewExp > 0 && *st.Op.Cb.NewExp <= 2592000 {
 				st.Op.Cb.NewExp = u32p(4000000000)
 			}
+			if st.Kind == "kv" && st.Op != nil {
+				st.Op.NewCasCur = false // resolved while the call runs, which here is in another process
+			}
 			st.Handle = 0
 			in.Ops = append(in.Ops, st)
 		}
 	}
 	in.ReopenCreateOrOpen = r.Intn(2) == 0
 	in.TryCreateNew = r.Intn(3) == 0
+	in.ReopenRenamed = r.Intn(4) == 0
 	in.KillPoint = pick(r, []string{"txn.begin", "txn.precommit", "txn.committed", "cas.beforeSetLastCas", "cas.beforePost"})
 	in.KillNth = 1 + r.Intn(2*len(in.Ops)+1)
 	if len(in.Ops) > 0 && r.Intn(2) == 0 {
